@@ -282,3 +282,14 @@ Proof.
     split; [exact W|]. split; [exact Er|]. pose proof (parse_render_dur sd W) as P. rewrite <- Er, H in P. congruence.
   - exfalso. destruct (parse_render_dur_overflow sd Sh ltac:(lia)) as [c P]. rewrite <- Er, H in P. discriminate.
 Qed.
+
+(* ================= exactly the specification's literals ================= *)
+
+Theorem time_literals s t : parse_time s = Ok t <-> exists st, wf_time st = true /\ s = render_time st /\ t = denote_time st.
+Proof. split; [apply time_literal_converse|]. intros (st & W & -> & ->). apply parse_render_time. exact W. Qed.
+
+Theorem date_literals_iff s d : parse_date s = Ok d <-> exists sd, wf_date sd = true /\ s = render_date sd /\ d = denote_date sd.
+Proof. split; [apply date_literal_converse|]. intros (sd & W & -> & ->). apply parse_render_date. exact W. Qed.
+
+Theorem duration_literals s d : parse_duration s = Ok d <-> exists sd, wf_dur sd = true /\ s = render_dur sd /\ d = denote_dur sd.
+Proof. split; [apply duration_literal_converse|]. intros (sd & W & -> & ->). apply parse_render_dur. exact W. Qed.
